@@ -15,7 +15,7 @@ ASSUMPTIONS = ["default active_timeout (20 s) on both sides, so that the passive
 RULE = ("a client and a server exchange packets of all modes, one side calls disconnect() (or disconnect_now()) with data still queued / in flight; data, ack, disconnect and "
         "disconnect-ack frames are lost, duplicated and reordered, incl. total blackout after the call and zero-length Reliable packets; oracle: every Reliable packet submitted "
         "before disconnect() is in the peer's event list before its Disconnect; from the first transmission of the disconnect request both sides reach a terminal event within "
-        "22 s (+ one step); nothing is delivered afterwards (C08 monitor). Non-trivial: a disconnect request was transmitted. Plus an allocation-edge family: both endpoints accept m fragments, a short Reliable packet and one that fits the rest by bytes but not by fragments, then disconnect().")
+        "22 s (+ one step); nothing is delivered afterwards (C08 monitor). Non-trivial: a disconnect request was transmitted. Plus an allocation-edge family: both endpoints accept m fragments, a short Reliable packet and one that fits the rest by bytes but not by fragments, then disconnect(). Round-7 second stream `gate` on two real HalfConnections: whenever is_send_pending() is false (the instant an endpoint transmits its disconnect request), the peer next receive() must have handed over every Reliable packet accepted before (families: RTT estimate falling during a resend back-off, frames filled by datagram count).")
 
 BUDGET_NS = 22_000 * 10**6
 
@@ -105,9 +105,66 @@ def streams(rng, tier, ctx):
             cases.append((cid, sim.ops)); meta[cid] = sim
     finally:
         it.close()
-    return [{"name": "disconnect", "mode": "ep", "cases": cases, "meta": meta, "case_timeout": 120}]
+    out = [{"name": "disconnect", "mode": "ep", "cases": cases, "meta": meta, "case_timeout": 120}]
+    # Second stream (round 7, change C09-g), on two real HalfConnections: what the flush gate of disconnect() stands for. The endpoints
+    # transmit the disconnect request in the first step in which is_send_pending() is false; theorem C09_hc_gate_then_later_receive says
+    # that every Reliable packet accepted before that moment is handed over by the peer's next receive(). Scenarios in which the gate
+    # is the delicate part: RTT estimate falling during a resend back-off, frames filled by datagram count, big packets with single
+    # fragments lost.
+    from props import hc_common as H
+    ith = Interactive("hc")
+    gcases = []; gmeta = {}
+    try:
+        for k in range(6 if tier == "quick" else 90):
+            r = rng.fork()
+            ith.op("=== gate%d" % k)
+            sim = [H.rtt_drop_scenario, H.rtt_drop_scenario, H.count_full_scenario][k % 3](r, ith)
+            H.finish(sim, drain=True, max_ticks=600)
+            gcases.append(("g%d" % k, sim.ops)); gmeta["g%d" % k] = sim
+    finally:
+        ith.close()
+    out.append({"name": "gate", "mode": "hc", "cases": gcases, "meta": gmeta, "case_timeout": 120})
+    return out
+
+def gate_oracle(stream, cid, ops, outs):
+    """is_send_pending() == false (the `pending=0` of `A get`) at some instant  =>  after B's next receive() every Reliable packet A had
+    accepted by then has been delivered at B."""
+    from props import hc_common as H
+    fails = H.trap_failures(ops, outs)
+    sim = stream["meta"][cid]
+    sent = sim.sent["A"]
+    nsent = 0; got = {}; open_at = None; tick = 0
+    for op, o in zip(ops, outs):
+        w = op.split(" ")
+        if w[0] == "t":
+            tick += 1
+        elif w[0] == "A" and w[1] == "send" and o == "ok":
+            nsent += 1
+        elif w[0] == "B" and w[1] == "recv" and o and o[0].isdigit():
+            for d in o.split(" ")[1:]:
+                got[d] = got.get(d, 0) + 1
+            if open_at is not None:
+                n_at, t_at = open_at
+                need = {}
+                for p in sent[:n_at]:
+                    if p.mode == 3:
+                        need[p.digest] = need.get(p.digest, 0) + 1
+                miss = [d for d, c in need.items() if got.get(d, 0) < c]
+                if miss:
+                    p = next(q for q in sent[:n_at] if q.mode == 3 and q.digest == miss[0])
+                    fails.append({"oracle": "gate_means_delivered", "detail": "A reported is_send_pending() = false at tick %d (the instant an endpoint would transmit its disconnect request) but after B's next receive() "
+                                  "the Reliable packet #%d (%d bytes) submitted before has not been delivered" % (t_at, p.idx, p.len), "signature": {"oracle": "gate_means_delivered"}})
+                    break
+                open_at = None
+        elif w[0] == "A" and w[1] == "get" and o.startswith("sbs=") and " pending=0" in (" " + o):
+            if open_at is None:
+                open_at = (nsent, tick)
+    return fails
 
 def signature(ops, outs):
+    if len(ops) > 1 and ops[1].startswith("A new"):
+        nf = sum(o.count(":D,") for op, o in zip(ops, outs) if op.endswith(" flush"))
+        return None if nf < 3 else ("gate", ops[1][:40], min(nf // 20, 9))
     disc = sum(1 for o in outs if ":disc" in o and "discack" not in o.split(":disc")[1][:4])
     if not any(":disc" in o for o in outs):
         return None
@@ -116,6 +173,8 @@ def signature(ops, outs):
     return (call, evs, min(len(ops) // 300, 8))
 
 def oracle(stream, cid, ops, outs):
+    if stream["mode"] == "hc":
+        return gate_oracle(stream, cid, ops, outs)
     fails = E.trap_failures(ops, outs)
     sim = stream["meta"][cid]
     sev, cev, log, delivered, calls = E.replay(ops, outs)
